@@ -1093,6 +1093,9 @@ func (g *genCtx) identLines(st *c12State) {
 					}
 				}
 				o.count("ident/message")
+				if spec, ok := sizeSpec(m); ok {
+					o.kase("GENSIZEBR", []string{sx(spec)}, orMissing(sizeOpens(src, gn)))
+				}
 				walk(m.Messages, p)
 			}
 		}
@@ -1115,4 +1118,69 @@ func uniq(xs []string) []string {
 		}
 	}
 	return out
+}
+
+// sizeSpec renders the fields of a message for the brace-skeleton model of the size template: kind:shape:oneof
+func sizeSpec(m *protogen.Message) (string, bool) {
+	var parts []string
+	kindTok := func(fd protoreflect.FieldDescriptor) string {
+		switch fd.Kind() {
+		case protoreflect.MessageKind:
+			return "msg"
+		case protoreflect.GroupKind:
+			return "group"
+		}
+		return kindNames[fd.Kind()]
+	}
+	for _, f := range m.Fields {
+		fd := f.Desc
+		if f.Oneof != nil && f.Oneof.Desc.IsSynthetic() {
+			return "", false // proto3 optional: outside the supported subset
+		}
+		k, shape, one := kindTok(fd), "s", "-"
+		switch {
+		case fd.IsMap():
+			k, shape = kindTok(fd.MapValue()), "m."+kindNames[fd.MapKey().Kind()]
+		case fd.IsList() && fd.IsPacked():
+			shape = "p"
+		case fd.IsList():
+			shape = "u"
+		}
+		if f.Oneof != nil {
+			one = fmt.Sprint(f.Oneof.Desc.Index())
+		}
+		parts = append(parts, k+":"+shape+":"+one)
+	}
+	return strings.Join(parts, " "), true
+}
+
+var reSizeStart = regexp.MustCompile(`^\tsize := func\(input \S+\.SizeInput\) \S+\.SizeOutput \{$`)
+
+// sizeOpens counts the lines ending in '{' of the size closure of fastReflection_<goName>.ProtoMethods
+func sizeOpens(src, goName string) string {
+	lines := strings.Split(src, "\n")
+	hdr := "func (x *fastReflection_" + goName + ") ProtoMethods() "
+	in, inSize, n := false, false, 0
+	for _, l := range lines {
+		if strings.HasPrefix(l, hdr) {
+			in = true
+			continue
+		}
+		if !in {
+			continue
+		}
+		if !inSize {
+			if reSizeStart.MatchString(l) {
+				inSize, n = true, 1
+			}
+			continue
+		}
+		if strings.HasPrefix(l, "\tmarshal := func(") {
+			return fmt.Sprint(n)
+		}
+		if strings.HasSuffix(strings.TrimRight(l, " \t"), "{") {
+			n++
+		}
+	}
+	return ""
 }
